@@ -1124,7 +1124,7 @@ theorem step_inv {w : W cr} (h : Inv w) (op : Op) : Inv (w.step op).2 := by
     split
     · exact h
     · exact addAccountData_inv h _ rfl rfl
-  | imp l al s p sk a sa m => exact addAccountData_inv h _ rfl rfl
+  | imp l al s p sk a sa m d => exact addAccountData_inv h _ rfl rfl
   | del a p => exact deleteAccount_inv h a p
   | setDefault a => exact setDefault_inv h a
   | setLabel a l => exact setLabel_inv h a l
@@ -1185,7 +1185,7 @@ theorem step_fileOK {w : W cr} (h : FileOK w) (op : Op) : FileOK (w.step op).2 :
     simp only [W.step, W.newAccount, W.addAccountData]
     repeat' split
     all_goals first | exact h | exact hs _
-  | imp l al s p sk a sa m =>
+  | imp l al s p sk a sa m d =>
     simp only [W.step, W.importAccount, W.addAccountData]
     repeat' split
     all_goals first | exact h | exact hs _
@@ -1220,5 +1220,48 @@ theorem step_fileOK {w : W cr} (h : FileOK w) (op : Op) : FileOK (w.step op).2 :
       simp only [W.load]
       rw [i2, i3, i1]
       simp [W.records, W.fresh]
+
+
+/-- at most one record carries the default flag -/
+theorem flagged_le_one {l : List (Acc cr)} (h : l.Pairwise recRel) : (l.filter (·.isDefault)).length ≤ 1 := by
+  induction l with
+  | nil => simp
+  | cons a r ih =>
+    rw [List.pairwise_cons] at h
+    rw [List.filter_cons]
+    split
+    · rename_i ha
+      have : r.filter (·.isDefault) = [] := by
+        rw [List.filter_eq_nil_iff]
+        intro b hb hbd
+        exact (h.1 b hb).2.2 ⟨ha, hbd⟩
+      simp [this]
+    · exact ih h.2
+
+/-- exactly one record is flagged default in a non-empty wallet, none in an empty one, and it is the one `defaultAcc` points to -/
+theorem single_default {w : W cr} (h : Inv w) :
+    (w.records.filter (·.isDefault)).length = (if w.records = [] then 0 else 1) ∧
+    ∀ a ∈ w.records, a.isDefault = true → w.metaDefault = some a.meta := by
+  have hle := flagged_le_one (records_pairwise h.idx)
+  have hlen := records_length h.idx
+  refine ⟨?_, ?_⟩
+  · split
+    · rename_i he; simp [he]
+    · rename_i hne
+      have hl : w.list ≠ [] := by
+        intro e; apply hne
+        exact List.length_eq_zero_iff.mp (by rw [hlen, e]; rfl)
+      have hs := h.dfltSome hl
+      cases hd : w.dflt with
+      | none => rw [hd] at hs; cases hs
+      | some d =>
+        obtain ⟨hm, a, ha, had⟩ := (h.idx.dflt d).mp hd
+        have : a ∈ w.records.filter (·.isDefault) := List.mem_filter.mpr ⟨mem_records.mpr ⟨d, hm, ha⟩, had⟩
+        have : 0 < (w.records.filter (·.isDefault)).length := List.length_pos_of_mem this
+        omega
+  · intro a ha had
+    obtain ⟨id, hm, hd⟩ := mem_records.mp ha
+    have := (h.idx.dflt id).mpr ⟨hm, a, hd, had⟩
+    simp [W.metaDefault, this, hd]
 
 end OntVerif.Proofs.Wallet
